@@ -4,7 +4,7 @@ from . import sched_run
 LEAN_TARGETS = ['DawgieVerif.Model.SchedIO', 'DawgieVerif.Model.ReprocessIO']
 TRUSTED = sched_run.TRUSTED
 MANIFEST = dict(
-    text='Lean theorems. (1) Scheduling clauses over Model/Sched.lean, for every state and report: update_complete (every direct dependent declaring a reported-new value as input, and every feedback consumer, gets the affected target(s) pending and is queued), update_minimal and growth_has_cause (pending work grows only by an explicit/versions request naming the node, a timer event naming it, or a success report with a new value it consumes), released_was_pending, pending_keeps_newest_run / pending_fresh_request_stays (pending work is never moved back to an older run id). (2) The consequence clause over Model/Reprocess.lean (scheduler + what released units do to the store, with read / write / reply of one execution as separate steps that interleave freely with requests, timers, source-data changes and other units): stale_is_scheduled (invariant for EVERY valid history of any length: each unit is fresh, or its source data is marked changed, or it is released and has not stored yet, or it is pending, or a report that makes it pending is on its way), quiescent_fresh / quiescent_fresh_from (at quiescence the latest stored content of every value equals a from-scratch run in dependency order), scratch_independent. Tied to the real code twice: op-by-op correspondence of Model/Sched with schedule/farm, and op-by-op correspondence of Model/Reprocess with the end-to-end path of harness/c02_e2e.py (real scanner, Construct, scheduler, farm message, the real pl.worker.cluster.execute on in-memory sockets, Context.run, Task.do / Analysis.do loads and aspects, shelve store with digest novelty, new-value report, Hand.dataReceived/_res; engines with tasks and analyses), including REAL overlaps (an algorithm that has loaded and not yet stored while its roots are re-run and report), slow units and source data arriving at any time; the driver prints the hypotheses of the theorem (worker protocol, load hypothesis, novelty premise) as Booleans for every real history.',
+    text='Lean theorems. (1) Scheduling clauses over Model/Sched.lean, for every state and report: update_complete (every direct dependent declaring a reported-new value as input, and every feedback consumer, gets the affected target(s) pending and is queued), update_minimal and growth_has_cause (pending work grows only by an explicit/versions request naming the node, a timer event naming it, or a success report with a new value it consumes), released_was_pending, pending_keeps_newest_run / pending_fresh_request_stays (pending work is never moved back to an older run id). (2) The consequence clause over Model/Reprocess.lean (scheduler + what released units do to the store, with read / write / reply of one execution as separate steps that interleave freely with requests, timers, source-data changes and other units): stale_is_scheduled (invariant for EVERY valid history of any length: each unit is fresh, or its source data is marked changed, or it is released and has not stored yet, or it is pending, or a report that makes it pending is on its way), quiescent_fresh / quiescent_fresh_from (at quiescence the latest stored content of every value equals a from-scratch run in dependency order), scratch_independent, quiet_dispatch_noop; eventually_fresh (Props/C02Live: on an acyclic feedback-free engine, from any reachable state with nothing in flight, executing everything that is released round after round makes the pipeline quiescent after depth+1 rounds AND leaves the from-scratch results in the store; the scheduler part of such a world round is a round of C04.quiesces for some answers). Tied to the real code twice: op-by-op correspondence of Model/Sched with schedule/farm, and op-by-op correspondence of Model/Reprocess with the end-to-end path of harness/c02_e2e.py (real scanner, Construct, scheduler, farm message, the real pl.worker.cluster.execute on in-memory sockets, Context.run, Task.do / Analysis.do loads and aspects, shelve store with digest novelty, new-value report, Hand.dataReceived/_res; engines with tasks and analyses), including REAL overlaps (an algorithm that has loaded and not yet stored while its roots are re-run and report), slow units and source data arriving at any time; the driver prints the hypotheses of the theorem (worker protocol, load hypothesis, novelty premise) as Booleans for every real history.',
     note="quiescent_fresh assumes (SemOk) deterministic algorithms that read nothing but their declared inputs and their own source data, one author per value, no algorithm consuming its own output, units are (task, target) and (analysis, all-targets marker) with a fixed target set (no regressions: they read across run ids), every run succeeds, one ds.update() per execution (check-pointing algorithms are covered by the end-to-end monitor only), and the load hypothesis: Interface._load goes by run id (own run id first, else latest); versions are not modelled, the hypothesis is that a load finds the latest stored contents or the unit is pending again -- evaluated on every real history by the driver (it failed on the unrepaired code: fixed finding b49fd37). The end-to-end monitor (independent of the model) compares the real store read back at every quiescence with a from-scratch evaluation, for check-pointing engines too. Target names contain no '.'. Trusted base as C01 plus harness/c02_e2e.py stubs (sockets, Context.abort, fsm, chronicle, md5sum/sha1sum sub-processes -> hashlib).",
     technique='Lean 4 proof: decision logic stated outright + invariant by induction over all op sequences of a scheduler/store world + uniqueness of the consistent store; two differential correspondences',
     design='7/C02',
